@@ -208,7 +208,7 @@ def body(ctx):
                               ops=[dict(api='push', size=200000, src='bytesio', path='/a', mtime=3), dict(api='reconnect', maxdata=md2, close_first=close_first),
                                    dict(api='push', size=150000, src='bytesio', path='/b', mtime=4)]))
             labels.append('reconnect %d -> %d (close first: %s)' % (md1, md2, close_first))
-    for path in ('/sdcard/caf\xe9.txt', '/\u20ac/\u00fc' + 'x' * 50, '/sdcard/\U0001F600'):
+    for path in ('/sdcard/caf\xe9.txt', '/\u20ac/\u00fc' + 'x' * 50, '/sdcard/\U0001F600', '/sdcard/Cafe\u0301.txt'):
         for src in ('bytesio', 'dir'):
             k += 1
             op = dict(api='push', size=5000, src='bytesio', path=path, mtime=9) if src == 'bytesio' else dict(api='push', src='dir', files=[('caf\xe9.bin', 300), ('plain', 10)], cwd='elsewhere', path=path, mtime=9)
